@@ -1,7 +1,7 @@
 #!/usr/bin/env python3
 """For every `fix:` commit in /repo: revert it in a scratch worktree of HEAD and run the owning quick check
 (it must report the original violation again). Writes revert_results.json."""
-import json, os, re, subprocess, tempfile, shutil
+import json, os, re, subprocess, sys, tempfile, shutil
 HERE = os.path.dirname(os.path.dirname(os.path.abspath(__file__)))
 kf = json.load(open(os.path.join(HERE, "known_findings.json")))
 fixed = []
@@ -9,6 +9,11 @@ for line in kf["fixed"]:
     m = re.match(r"fixed: property=(C\d+) ([0-9a-f]{7,}) (.*)", line)
     if m:
         fixed.append(m.groups())
+only = set(sys.argv[1:])   # optional: commit prefixes to re-validate (results merged into revert_results.json)
+if only:
+    fixed = [f for f in fixed if any(f[1].startswith(o) for o in only)]
+# a later fix touched the same lines: the revert conflicts; the catalogue holds a change that undoes exactly that fix
+EQUIVALENT_MUTANT = {"fb2b570": "c08-unsorted-match"}
 # checks that own the fix (a fix may be found by a workload of another property)
 owner_override = {}
 classes = {"C01": None}
@@ -20,7 +25,13 @@ for prop, commit, what in fixed:
     try:
         r = subprocess.run(["git", "-C", wt, "revert", "-n", "--no-edit", commit], capture_output=True, text=True)
         if r.returncode != 0:
-            out.append(dict(prop=prop, commit=commit, what=what[:80], verdict="REVERT-CONFLICT")); print(prop, commit, "conflict"); continue
+            eq = EQUIVALENT_MUTANT.get(commit)
+            verdict = "REVERT-CONFLICT"
+            if eq:
+                m = subprocess.run(["python3", os.path.join(HERE, "tools", "mutants.py"), "--ids", eq], capture_output=True, text=True)
+                verdict = {prop: "caught" if "got=caught" in m.stdout else "silent"}
+            out.append(dict(prop=prop, commit=commit, what=what[:80], verdict=verdict, note=f"git revert conflicts with a later fix; undone through catalogue change {eq}" if eq else "conflict"))
+            print(prop, commit, verdict, "(via", eq, ")"); continue
         props = [prop] + ({"C05": ["C08"]}.get(prop, []) if "Parquet input" in what else [])
         res = {}
         for p in props:
@@ -34,4 +45,8 @@ for prop, commit, what in fixed:
     finally:
         subprocess.run(["git", "-C", "/repo", "worktree", "remove", "--force", wt], capture_output=True)
         shutil.rmtree(wt, ignore_errors=True); shutil.rmtree(od, ignore_errors=True)
-json.dump(out, open(os.path.join(HERE, "revert_results.json"), "w"), indent=1)
+path = os.path.join(HERE, "revert_results.json")
+if only and os.path.exists(path):
+    old = [o for o in json.load(open(path)) if not any(o["commit"].startswith(x) for x in only)]
+    out = old + out
+json.dump(out, open(path, "w"), indent=1)
